@@ -64,9 +64,11 @@ class IdentifierUniquenessValidator(SigmaRuleValidator):
         return []
 
     def finalize(self) -> list[SigmaValidationIssue]:
-        return [
+        issues: list[SigmaValidationIssue] = [
             IdentifierCollisionIssue(rules, id) for id, rules in self.ids.items() if len(rules) > 1
         ]
+        self.ids = defaultdict(list)  # the validation run is over, the next one starts from scratch
+        return issues
 
 
 @dataclass
@@ -90,11 +92,13 @@ class DuplicateTitleValidator(SigmaRuleValidator):
         return []
 
     def finalize(self) -> list[SigmaValidationIssue]:
-        return [
+        issues: list[SigmaValidationIssue] = [
             DuplicateTitleIssue(rules, title)
             for title, rules in self.titles.items()
             if len(rules) > 1
         ]
+        self.titles = defaultdict(list)  # the validation run is over, the next one starts from scratch
+        return issues
 
 
 @dataclass
@@ -140,11 +144,15 @@ class DuplicateFilenameValidator(SigmaRuleValidator):
         return []
 
     def finalize(self) -> list[SigmaValidationIssue]:
-        return [
+        issues: list[SigmaValidationIssue] = [
             DuplicateFilenameIssue(self.filenames_to_rules[filename], filename)
             for filename, paths in self.filenames_to_paths.items()
             if len(paths) > 1
         ]
+        # the validation run is over, the next one starts from scratch
+        self.filenames_to_rules = defaultdict(list)
+        self.filenames_to_paths = defaultdict(set)
+        return issues
 
 
 @dataclass
